@@ -148,6 +148,15 @@ def evaluate(case):
             if not same(w1, w2):
                 fails.append(f"fourier_transform on rows stored as two banks (high first) with the window [{lo!r}, {hi!r}]: differs from "
                              "transforming the pre-deleted rows with the same window")
+    # a window whose lower limit lies above its upper limit is a closed interval with nothing in it
+    if len(x) >= 3:
+        xs_ = np.sort(x)
+        rl, rh = float(xs_[-2]), float(xs_[1])
+        if rl > rh:
+            cx, cy, ce = tr.apply_cropping(x, y, rl, rh, dy=dy)
+            if len(cx) or len(cy) or len(ce):
+                fails.append(f"apply_cropping: the window [{rl!r}, {rh!r}] (lower limit above upper limit: an empty interval) returns {len(cx)} points instead of none")
+                return fails
     if case["wkind"] == "empty":
         cx, cy, ce = tr.apply_cropping(x, y, lo, hi, dy=dy)
         if len(cx) or len(cy) or len(ce):
